@@ -28,3 +28,23 @@ Theorem C10_nonvacuous : wf_batch big /\ wf_batch small /\
   hrun [] [Build None big true; Build (Some 0) small true] = [fst (build fresh big); fst (build fresh small)].
 Proof. exact C10_example. Qed.
 Print Assumptions C10_nonvacuous.
+
+Require ZV.BuildRefine.
+From Coq Require Permutation.
+
+(* the builder's two passes (ids handed out in first-seen order, hits appended per document, keys
+   sorted at the end) produce the specification's dictionary for EVERY order in which Go's map
+   iteration delivers the terms - in the first pass (any order, any repetition) and, document by
+   document, in the second (any permutation) *)
+Theorem C10_builder_algorithm_refines_spec : forall b f seq1 ord,
+  (forall t, List.In t seq1 <-> List.In t (BuildAlg.all_terms b f)) ->
+  (forall n d len tfs, List.In (n, d) (Spec.indexed b) -> Spec.doc_tfs d f = Some (len, tfs) ->
+                       Permutation.Permutation (ord n) tfs) ->
+  BuildAlg.build b f seq1 ord = Spec.spec_dict b f.
+Proof. exact BuildRefine.builder_refines_spec. Qed.
+Print Assumptions C10_builder_algorithm_refines_spec.
+
+(* the instance the correspondence run executes next to zapx (request 21: orders scrambled by a seed) *)
+Theorem C10_builder_run_is_spec : forall b s, BuildAlg.run_build b s = Spec.spec_dicts b.
+Proof. exact BuildRefine.run_build_is_spec. Qed.
+Print Assumptions C10_builder_run_is_spec.
